@@ -222,10 +222,16 @@ def materialize(spec, rt_holder, tag=''):
     def outcome(i, nd, kwargs, rt):
         # attempt index within one execution: the number of immediately preceding invocations of this node with the
         # same arguments that raised (a success, other arguments or a get_default call start a new execution)
+        # -- and made by the same asyncio task: all attempts of one execution run in one _run_node task, a re-execution (next
+        # iteration of a recurrent subgraph) in a new one, even when it passes the very same arguments after a failure
         ck = canon_kwargs(kwargs)
         prev = rt.calls.get(i)
-        a = prev['a'] + 1 if prev and prev['ck'] == ck and prev['raised'] else 0
-        rt.calls[i] = dict(ck=ck, a=a, raised=False)
+        try:
+            task = asyncio.current_task()
+        except RuntimeError:
+            task = None
+        a = prev['a'] + 1 if prev and prev['ck'] == ck and prev['raised'] and prev['task'] is task else 0
+        rt.calls[i] = dict(ck=ck, a=a, raised=False, task=task)
         return a, ck
 
     def compute(i, nd, kwargs, a, self):
